@@ -106,6 +106,7 @@ const (
 	OFEq // IEEE equality
 	OFIsNaN
 	OFIsInf
+	OFIsNeg
 	OFToF  // float -> float (RNE)
 	OSToF  // signed bv -> float
 	OUToF  // unsigned bv -> float
@@ -123,7 +124,7 @@ var opNames = map[Op]string{
 	OAdd: "bvadd", OSub: "bvsub", OMul: "bvmul", OUDiv: "bvudiv", OSDiv: "bvsdiv", OURem: "bvurem", OSRem: "bvsrem",
 	OBAnd: "bvand", OBOr: "bvor", OBXor: "bvxor", OShl: "bvshl", OLShr: "bvlshr", OAShr: "bvashr", ONeg: "bvneg", OBNot: "bvnot",
 	OUlt: "bvult", OUle: "bvule", OSlt: "bvslt", OSle: "bvsle", OConcat: "concat",
-	OFNeg: "fp.neg", OFAbs: "fp.abs", OFLt: "fp.lt", OFLe: "fp.leq", OFEq: "fp.eq", OFIsNaN: "fp.isNaN", OFIsInf: "fp.isInfinite",
+	OFNeg: "fp.neg", OFAbs: "fp.abs", OFLt: "fp.lt", OFLe: "fp.leq", OFEq: "fp.eq", OFIsNaN: "fp.isNaN", OFIsInf: "fp.isInfinite", OFIsNeg: "fp.isNegative",
 }
 
 type Term struct {
@@ -420,6 +421,8 @@ func foldOp(op Op, s Sort, hi, lo int, a []*Term) (uint64, bool) {
 		return b2u(ff(0) != ff(0)), true
 	case OFIsInf:
 		return b2u(math.IsInf(ff(0), 0)), true
+	case OFIsNeg:
+		return b2u(math.Signbit(ff(0)) && ff(0) == ff(0)), true
 	case OFToF:
 		return mk(ff(0)), true
 	case OSToF:
@@ -862,7 +865,7 @@ func (c *TermCtx) FCmp(op Op, a, b *Term) *Term {
 }
 func (c *TermCtx) FUn(op Op, a *Term) *Term {
 	s := a.sort
-	if op == OFIsNaN || op == OFIsInf {
+	if op == OFIsNaN || op == OFIsInf || op == OFIsNeg {
 		s = BoolSort
 	}
 	return c.mk(op, s, a)
